@@ -100,15 +100,20 @@ async def gather_excs(
     """
     futs = [aio.ensure_future(aw) for aw in aws]
     await aio.gather(*futs, return_exceptions=True)
+    # A future only hands out its real cancellation error once: look at
+    # a future given several times once and report it each time
+    seen: 'Dict[aio.Future[Any], Optional[BaseException]]' = {}
     for fut in futs:
         # An exception instance can also be the (successful) result of
         # an awaitable: only report the ones which were really raised.
         # gather would also replace any kind of CancelledError with a
         # new plain one, so get the real exception from the future.
-        try:
-            exc = fut.exception()
-        except aio.CancelledError as cancelled:
-            exc = cancelled
+        if fut not in seen:
+            try:
+                seen[fut] = fut.exception()
+            except aio.CancelledError as cancelled:
+                seen[fut] = cancelled
+        exc = seen[fut]
         if exc is not None and isinstance(exc, only):
             yield exc  # type: ignore
 
